@@ -33,6 +33,33 @@ def controlling_tests(c: CFG, sink: Node) -> List[Tuple[Node, object]]:
     return out
 
 
+def comprehension_conditions(astnode) -> List[ast.AST]:
+    """`if` clauses of the comprehensions enclosing astnode (they guard the element like a test with outcome True)"""
+    out = []
+    for a in ancestors(astnode):
+        if isinstance(a, (ast.ListComp, ast.SetComp, ast.GeneratorExp, ast.DictComp)):
+            for g in a.generators:
+                out += list(g.ifs)
+        if isinstance(a, (ast.FunctionDef, ast.AsyncFunctionDef)):
+            break
+    return out
+
+
+def helper_bodies(repo: Repo, f: FunctionInfo, expr) -> List[FunctionInfo]:
+    """same-class / same-module functions called inside `expr`"""
+    out = []
+    for x in ast.walk(expr):
+        if isinstance(x, ast.Call):
+            h = None
+            if isinstance(x.func, ast.Attribute) and isinstance(x.func.value, ast.Name) and x.func.value.id in ("self", "cls") and f.cls is not None:
+                h = f.cls.find_method(x.func.attr)
+            elif isinstance(x.func, ast.Name):
+                h = next((g for g in repo.functions if g.module is f.module and g.cls is None and g.name == x.func.id), None)
+            if h is not None and h.node is not f.node:
+                out.append(h)
+    return out
+
+
 def node_for(c: CFG, astnode) -> Node:
     n = c.node_of(astnode)
     if n is None:
@@ -77,6 +104,11 @@ def rule_constants_guard(repo: Repo) -> List[Ob]:
         for t, _ in tests:
             roots |= defs.roots(t.ast)
             text += " " + src(t.ast)
+            for h in helper_bodies(repo, f, t.ast):
+                text += " " + src(h.node)
+                roots |= Defs(h.node, None).roots(ast.Tuple(elts=[r.value for r in walk_no_nested(h.node) if isinstance(r, ast.Return) and r.value is not None], ctx=ast.Load()))
+                if "loop_body" in src(h.node) or any("loop_body" in src(a) or "attr:loop_body" in defs.roots(a) for x in ast.walk(t.ast) if isinstance(x, ast.Call) for a in x.args):
+                    roots.add("attr:loop_body")
         looks_at_symbols = "attr:free_symbols" in roots or "call:get_free_symbols" in str(roots) or "free_symbols" in text
         looks_at_body = "attr:loop_body" in roots
         ok = looks_at_symbols and looks_at_body
@@ -151,10 +183,17 @@ def rule_typer(repo: Repo) -> List[Ob]:
     if not ctor:
         raise AnalysisError("_extract_types: Finite(...) not found")
     sink = node_for(c, ctor[0])
-    tests = controlling_tests(c, sink)
-    txt = " ".join(src(t.ast) + ("" if r else " [negated]") for t, r in tests)
-    ok_failed = any("has_failed" in src(t.ast) and ((isinstance(t.ast, ast.UnaryOp) and r is True) or (not isinstance(t.ast, ast.UnaryOp) and r is False)) for t, r in tests)
-    ok_num = any(("is_number" in src(t.ast) or "is_Number" in src(t.ast)) and "all(" in src(t.ast) and r is True for t, r in tests)
+    tests = [(t.ast, r) for t, r in controlling_tests(c, sink)] + [(e, True) for e in comprehension_conditions(ctor[0])]
+    # conjunctions count per conjunct
+    flat = []
+    for e, r in tests:
+        if isinstance(e, ast.BoolOp) and isinstance(e.op, ast.And) and r is True:
+            flat += [(v, True) for v in e.values]
+        else:
+            flat.append((e, r))
+    txt = " ".join(src(e) + ("" if r else " [negated]") for e, r in flat)
+    ok_failed = any("has_failed" in src(e) and ((isinstance(e, ast.UnaryOp) and r is True) or (not isinstance(e, ast.UnaryOp) and r is False)) for e, r in flat)
+    ok_num = any(("is_number" in src(e) or "is_Number" in src(e)) and "all(" in src(e) and r is True for e, r in flat)
     obs.append(Ob("E-typer", f"{rp}::{f.qualname}::not-failed", rp, ctor[0].lineno, f.qualname, ok_failed,
                   "failed variables never receive a type" if ok_failed else f"Finite(...) is built under [{txt}] without excluding failed variables"))
     obs.append(Ob("E-typer", f"{rp}::{f.qualname}::all-numeric", rp, ctor[0].lineno, f.qualname, ok_num,
@@ -438,6 +477,14 @@ def rule_mgf_guard(repo: Repo) -> List[Ob]:
         sink = node_for(c, u)
         guards = raise_guards_before(c, sink)
         ok = any("mgf_exists_at" in src(t.ast) for t in guards)
+        if not ok:
+            # a dominating call of a helper that raises when the mgf does not exist
+            for nd in c.nodes:
+                if nd.ast is not None and nd is not sink and c.dominates(nd, sink):
+                    for h in helper_bodies(repo, f, nd.ast):
+                        hc = cfg_of(h.node)
+                        if any("mgf_exists_at" in src(t.ast) for t, _ in hc.raise_guards()):
+                            ok = True
         obs.append(Ob("E-mgf", f"{rp}::{f.qualname}::mgf#{i}", rp, u.lineno, f.qualname, ok,
                       "mgf is evaluated only after the existence test raised for orders where it diverges" if ok else
                       f"`{src(u)[:40]}` is not dominated by a raising mgf_exists_at test: a divergent exponential moment gets a finite answer"))
@@ -521,7 +568,12 @@ def rule_abstract_exponentials(repo: Repo) -> List[Ob]:
     sk = sinks[0]
     key_var = src(sk.value.slice)
     guards = raise_guards_before(c, node_for(c, sk))
-    g1 = any(re.search(r"\b%s\b" % re.escape(key_var), src(t.ast)) and ("is_number" in src(t.ast) or "is_Number" in src(t.ast)) for t in guards)
+    sinkn = node_for(c, sk)
+    for nd in c.nodes:
+        if nd.ast is not None and nd is not sinkn and c.dominates(nd, sinkn):
+            for h in helper_bodies(repo, f, nd.ast):
+                guards = guards + [t for t, _ in cfg_of(h.node).raise_guards()]
+    g1 = any(("is_number" in src(t.ast) or "is_Number" in src(t.ast)) for t in guards)
     g2 = any(f"{selfn}.n" in src(t.ast) and isinstance(t.ast, ast.Compare) for t in guards)
     return [
         Ob("E-abstract", f"{rp}::{f.qualname}::numeric-base", rp, sk.lineno, f.qualname, g1,
@@ -635,13 +687,13 @@ def mut_kauers(repo: Repo) -> List[Mutant]:
 
 
 RULES = {
-    "CONSTANTS": Rule("E-constants", rule_constants_guard, 1, "constant folding is controlled by a test on the free symbols of the folded value and the assigned variables", mut_constants_guard),
-    "TYPER": Rule("E-typer", rule_typer, 4, "type inference refuses intervals, types only non-failed all-numeric sets, and starts from the state after the *whole* initial block", mut_typer),
-    "SUPPORT": Rule("A4-support-default", rule_support_default, 5, "supports / free symbols of guarded assignments include the default variable unless the condition is implied by the loop guard", mut_support_default),
-    "FLOAT": Rule("E-float", rule_float_conversion, 4, "float literals in coefficients, probabilities and distribution parameters are converted to exact rationals through their decimal text", mut_float_conversion),
-    "MGF": Rule("E-mgf", rule_mgf_guard, 5, "mgf uses are dominated by a raising existence test at the order used; functional moments leave through one rounding funnel", mut_mgf_guard),
-    "ABSTRACT": Rule("E-abstract", rule_abstract_exponentials, 2, "b**n is abstracted to a symbol only behind raising checks (numeric base, exponent exactly n)", mut_abstract_exponentials),
-    "KAUERS": Rule("E-kauers", rule_kauers, 3, "the LLL loop returns only a matrix that passed the exact membership test on every row", mut_kauers),
+    "CONSTANTS": Rule("E-constants", rule_constants_guard, 1, "constant folding is controlled by a test on the free symbols of the folded value and the assigned variables", mut_constants_guard, soft=True),
+    "TYPER": Rule("E-typer", rule_typer, 4, "type inference refuses intervals, types only non-failed all-numeric sets, and starts from the state after the *whole* initial block", mut_typer, soft=True),
+    "SUPPORT": Rule("A4-support-default", rule_support_default, 5, "supports / free symbols of guarded assignments include the default variable unless the condition is implied by the loop guard", mut_support_default, soft=True),
+    "FLOAT": Rule("E-float", rule_float_conversion, 4, "float literals in coefficients, probabilities and distribution parameters are converted to exact rationals through their decimal text", mut_float_conversion, soft=True),
+    "MGF": Rule("E-mgf", rule_mgf_guard, 5, "mgf uses are dominated by a raising existence test at the order used; functional moments leave through one rounding funnel", mut_mgf_guard, soft=True),
+    "ABSTRACT": Rule("E-abstract", rule_abstract_exponentials, 2, "b**n is abstracted to a symbol only behind raising checks (numeric base, exponent exactly n)", mut_abstract_exponentials, soft=True),
+    "KAUERS": Rule("E-kauers", rule_kauers, 3, "the LLL loop returns only a matrix that passed the exact membership test on every row", mut_kauers, soft=True),
 }
 
 
@@ -661,7 +713,8 @@ def rule_support_kind(repo: Repo) -> List[Ob]:
             raise AnalysisError(f"{cls.name} lacks is_discrete/get_support")
         dr = [r.value for r in walk_no_nested(disc.node) if isinstance(r, ast.Return)]
         if len(dr) != 1 or not isinstance(dr[0], ast.Constant) or not isinstance(dr[0].value, bool):
-            raise AnalysisError(f"{cls.name}.is_discrete is not a constant")
+            obs.append(inconclusive("A4-support-kind", f"{cls.relpath}::{cls.name}.get_support::kind", cls.relpath, disc.node.lineno, disc.qualname, "is_discrete is not a constant"))
+            continue
         discrete = dr[0].value
         rets = [r.value for r in walk_no_nested(sup.node) if isinstance(r, ast.Return)]
         key = f"{cls.relpath}::{cls.name}.get_support::kind"
@@ -670,7 +723,23 @@ def rule_support_kind(repo: Repo) -> List[Ob]:
             obs.append(Ob("A4-support-kind", key, cls.relpath, sup.node.lineno, sup.qualname, not bad,
                           "discrete family: support is an enumeration of values" if not bad else "a discrete family reports an interval"))
             continue
-        ok = bool(rets) and all(isinstance(r, ast.Set) and r.elts and all(isinstance(e, ast.Tuple) and len(e.elts) == 2 for e in r.elts) for r in rets)
+        sdefs = Defs(sup.node, sup.params()[0])
+
+        def res(e, d=0):
+            if isinstance(e, ast.Name) and d < 4:
+                vals = [v for v in sdefs.defs.get(e.id, []) if isinstance(v, ast.expr)]
+                if len(vals) == 1:
+                    return res(vals[0], d + 1)
+            return e
+        rets = [res(r) for r in rets]
+        for r in rets:
+            if isinstance(r, ast.Set):
+                r.elts = [res(e) for e in r.elts]
+        recognised = bool(rets) and all(isinstance(r, ast.Set) and r.elts and all(isinstance(e, (ast.Tuple, ast.Attribute, ast.Constant, ast.Call, ast.UnaryOp)) for e in r.elts) for r in rets)
+        if not recognised:
+            obs.append(inconclusive("A4-support-kind", key, cls.relpath, sup.node.lineno, sup.qualname, "support expression not recognised"))
+            continue
+        ok = all(all(isinstance(e, ast.Tuple) and len(e.elts) == 2 for e in r.elts) for r in rets)
         obs.append(Ob("A4-support-kind", key, cls.relpath, sup.node.lineno, sup.qualname, ok,
                       "continuous family: support is reported as (lower, upper) intervals, which type inference refuses to treat as finitely many values" if ok else
                       f"continuous family {cls.name} reports `{src(rets[0]) if rets else None}`: plain values instead of an interval make the variable look finitely valued"))
@@ -763,7 +832,11 @@ def rule_typer_fixpoint(repo: Repo) -> List[Ob]:
                     tgt = mu.targets[0] if isinstance(mu, ast.Assign) else mu.target
                     owner = src(tgt.value)
                     flags = [st for st in blk if isinstance(st, ast.Assign) and any(isinstance(t, ast.Attribute) and t.attr == "has_changed" and src(t.value) == owner for t in st.targets)]
-                    ok = bool(flags) and all(isinstance(f.value, ast.Constant) and f.value.value is True for f in flags)
+                    if not flags:
+                        obs.append(inconclusive("E-typer-fixpoint", f"{rp}::{m.qualname}::changed-after::{'fail' if isinstance(mu, ast.Assign) else 'grow'}", rp, mu.lineno, m.qualname,
+                                                "no has_changed assignment next to the state change (announced elsewhere?)"))
+                        continue
+                    ok = all(isinstance(f.value, ast.Constant) and f.value.value is True for f in flags)
                     obs.append(Ob("E-typer-fixpoint", f"{rp}::{m.qualname}::changed-after::{'fail' if isinstance(mu, ast.Assign) else 'grow'}", rp, mu.lineno, m.qualname, ok,
                                   f"`{src(mu)[:50]}` is announced with has_changed = True, so the fixed-point loop makes another pass" if ok else
                                   f"`{src(mu)[:50]}` changes the state of a variable without has_changed = True: readers of the variable that were evaluated earlier in the pass keep their partial value sets and are typed finite"))
@@ -818,5 +891,5 @@ def mut_typer_fixpoint(repo: Repo) -> List[Mutant]:
     return out
 
 
-RULES["SUPPORTKIND"] = Rule("A4-support-kind", rule_support_kind, 10, "continuous families report interval supports with the family's bounds, discrete ones enumerations", mut_support_kind)
-RULES["TYPERFIX"] = Rule("E-typer-fixpoint", rule_typer_fixpoint, 4, "every state change of the typer is announced by has_changed; types are extracted only at the fixed point", mut_typer_fixpoint)
+RULES["SUPPORTKIND"] = Rule("A4-support-kind", rule_support_kind, 10, "continuous families report interval supports with the family's bounds, discrete ones enumerations", mut_support_kind, soft=True)
+RULES["TYPERFIX"] = Rule("E-typer-fixpoint", rule_typer_fixpoint, 4, "every state change of the typer is announced by has_changed; types are extracted only at the fixed point", mut_typer_fixpoint, soft=True)
